@@ -101,7 +101,8 @@ def format_summary_with_schema(statement_type, status_counts,
         parts.append((status.name, counts))
 
     if use_passed_for_all:
-        counts_total = status_counts.get(Status.passed, 0)
+        counts_total = status_counts.get(Status.passed.name,
+                                         status_counts.get(Status.passed, 0))
         suffix = " passed"
     else:
         counts_total = status_counts.get("all", None)
